@@ -545,6 +545,11 @@ def _adaptive_history(ctx, viol, world, rng, i):
                 hist.append(["adv", d])
             else:
                 fbv[0] = rng.choice([0.0, 1.0 / 64, 0.25, 1.0, 7.0, 1e3, 1e300])
+                # what the strategy is told about the remaining deadline changes nothing: adaptive() scales, the engine clamps
+                rem_told = rng.choice([None, None, 1e-9, 0.5, 3.0, 60.0])
+                ctxo = BackoffContext(attempt=rng.choice([1, 2, 7]), classification=Classification(klass=K), prev_sleep_s=None, remaining_s=rem_told, cause="exception")
+                if rem_told is not None:
+                    ctx.cnt["adaptive_calls_with_a_remaining_deadline"] += 1
                 r = st(ctxo)
                 ctx.cnt["eval:adaptive"] += 1
                 ctx.cnt["evaluations"] += 1
